@@ -308,6 +308,7 @@ class UpgradedParameter(_util.funcsigs.Parameter):
 def _upgrade_parameters_with_warning(parameters, stacklevel=1):
     if parameters is None:
         return None
+    parameters = list(parameters)
     if all(isinstance(param, UpgradedParameter) for param in parameters):
         return parameters
     else:
